@@ -7,7 +7,7 @@ from common import *
 
 MANIFEST_ENTRY = dict(
     cat="fault_enumeration", ref="DESIGN.md 3.5, 4 C06", engine="wallet-tla",
-    text="Every operation of Wallet.tla is a step program returning the world state after each persistent effect; TLC checks CrashConsistent on EVERY intermediate state of every operation in every reachable state of the bounded model (Inv_Crash). On the real code, for (prefix, operation) pairs drawn from the model's transitions, the harness counts the operation's persistent-effect boundaries with the Batch::commit / store_tx hooks, and for every boundary re-runs it from a directory snapshot with a crash (panic at the hook, wallet instance dropped, store re-opened) and with a failing write; TLC judges the re-opened store (CrashConsistent, StoreLoads), the answers of every query (QueriesTotal), that every pending transaction can still be cancelled and that cancelling restores the pre-operation spendable balance (RecoverByCancel), and (Layer M) that the state found equals the model's step k-1 and the number of boundaries equals the length of the step program.",
+    text="Every operation of Wallet.tla is a step program returning the world state after each persistent effect; TLC checks CrashConsistent on EVERY intermediate state of every operation in every reachable state of the bounded model (Inv_Crash). On the real code, for (prefix, operation) pairs drawn from the model's transitions - plus two directed scan scenarios (a wallet restored from the phrase finding its outputs, the repair after a cancelled-then-mined transaction) - the harness counts the operation's persistent-effect boundaries with the Batch::commit / store_tx hooks, and for every boundary re-runs it from a directory snapshot with a crash (panic at the hook, wallet instance dropped, store re-opened) and with a failing write; TLC judges the re-opened store (CrashConsistent, StoreLoads), the answers of every query (QueriesTotal), that every pending transaction can still be cancelled and that cancelling restores the pre-operation spendable balance (RecoverByCancel), and (Layer M) that the state found equals the model's step k-1 and the number of boundaries equals the length of the step program.",
     technique="TLC model checking of step programs (spec/MCWallet.tla Inv_Crash) + hook-driven crash/fault enumeration on the real code + TLC trace validation (spec/TraceWallet.tla TCrash)",
     note=WALLET_NOTE + " LMDB's own commit atomicity is trusted: a crash is injected immediately before a commit / file create, never inside one; torn stored-transaction files are covered by every truncation length of the file.")
 
